@@ -9,6 +9,16 @@ integration branches (of this and of the other pull requests), evaluations in be
 comments `reset` or `force_reset` and the pull request is evaluated; after a completed reset it is
 evaluated once more (rebuild).
 
+A second family (`GEN_MERGE`) plays the DEVELOPER'S SIDE OF THE CONFLICT WORKFLOW, i.e. what Bert-E's own Conflict
+message tells the author to do: (a) `git checkout -B w/X/<src> origin/<destination X>; git merge origin/<src>`,
+conflicts resolved, push - the integration branch is made by hand and its tip is a merge commit of the user's
+with parents [destination tip, source tip]; after a Conflict "I have not created the integration branch"
+(another pull request has put a conflicting file on that target) and also when the robot reported nothing;
+(b) the same on an integration branch that exists (`checkout -B` starts it again: forced push of w/);
+(c) the destination branch, once it has moved, merged by hand INTO the integration branch (parents [w tip,
+destination tip]), robot-built or hand-made; commits on top; then `reset` / `force_reset`, with and without an
+evaluation in between (the robot then builds the rest of the cascade on the hand-made branch).
+
 Observed at the command: job status, every ref and every pull request of the host before and after, the
 commits `Branch.get_commit_diff` returned to `_reset` (wrapped from outside), and the whole commit graph of
 the bare repository (`git log --all`: parents and author names).
@@ -22,7 +32,27 @@ Oracle (the property text, independent of the model): the harness KNOWS which co
 which integration branch (ghost set `manual`) and which commits ever were on the source branch (ghost set
 `ever`). If an integration branch of the pull request still holds such a commit (reachable from it, not from
 its destination, never on the source branch) `reset` must answer LossyResetWarning and change no ref and no
-pull request; a completed command must remove exactly the `w/<version>/<source>` branches of this pull
+pull request. The three conditions of the text, as the oracle reads them for a commit `c`:
+  * "not the robot's": `c` was committed by the contributor (every entry of `manual` is);
+  * "not part of the current or a previous version of the source branch": `c` is reachable from no tip the source
+    branch ever had (`ever`, noted after every event);
+  * "made on top of the integration branch itself": `c` was committed WITH THE INTEGRATION BRANCH CHECKED OUT -
+    its first parent is what `w/X/<src>` pointed to in the developer's clone at that moment and `c` became the
+    new tip of `w/X/<src>` (the harness asserts the first parent) - as opposed to a commit that reached the
+    integration branch by being merged into it (commits of the source or of the destination).
+    READING FOR THE CONFLICT WORKFLOW: after `git checkout -B w/X/<src> origin/<destination X>` the integration
+    branch IS the destination tip in the developer's clone, and `git merge origin/<src>` + the conflict resolution
+    is committed on that branch: the merge commit [destination tip, source tip] is made on top of the integration
+    branch itself although BOTH its parents lie outside `w/X/<src>..` (one on the destination, one on the source
+    branch). Its content (the resolution) exists nowhere else, Bert-E's Conflict message asks for exactly this
+    commit, the unchanged `_reset` refuses on it (a merge commit never joins the `feature` set), and
+    `Lemmas/Reset.lean: Own.merge` reads it the same way (a merge that is neither on the destination nor ever on
+    the source branch is the integration branch's own, whatever its parents). "On top of" is therefore NOT read
+    as "its parent is a commit that only the integration branch holds": that reading would leave the conflict
+    resolution unprotected and is the reading seeded change C15-3 implements.
+A commit stays held as long as SOME integration branch of the pull request reaches it (a forced push of w/X
+drops what only w/X reached; what the robot had already merged down the cascade is still held by the later
+branches). Further: a completed command must remove exactly the `w/<version>/<source>` branches of this pull
 request, decline exactly the open pull requests whose source is one of them, and change nothing else;
 the evaluation that follows must put the integration branches back (unless it reports a conflict)."""
 import json
@@ -56,6 +86,7 @@ TRUSTED = [
 
 KEY_MERGE = 'manual-merge-discarded'
 KEY_COMMIT = 'manual-commit-discarded'
+N_MERGE_QUICK = 48
 
 _REC = None          # recorder of Branch.get_commit_diff during _reset
 _WRAPPED = False
@@ -213,6 +244,144 @@ def GEN(rng):
     return cfg, mode, evs
 
 
+
+# ----------------------------------------------------------------------------- generator, Conflict workflow
+
+# The developer's side of Bert-E's Conflict message. Each slot is played (len(MERGE_KINDS) divides the tier sizes):
+#  conflict-create   (a) another pull request puts a conflicting file on a later target; the evaluation answers
+#                        Conflict "I have not created the integration branch"; the developer creates w/X/<src> from
+#                        the destination branch and merges the source into it, resolving the conflict
+#  fresh-create      (a) the same actions although the robot reported no conflict (before its first evaluation)
+#  recreate          (b) the same on an integration branch the robot built (`checkout -B`: forced push of w/)
+#  merge-dst         (c) the destination has moved and is merged BY HAND into the robot-built integration branch
+#  create-then-dst   (a)/(b) then (c) on the hand-made integration branch
+MERGE_KINDS = ['conflict-create', 'fresh-create', 'recreate', 'merge-dst', 'conflict-create', 'create-then-dst',
+               'recreate', 'conflict-create']
+
+
+def GEN_MERGE(rng, i):
+    from .system import Config
+    kind = MERGE_KINDS[i % len(MERGE_KINDS)]
+    dests, tags = rng.choice(C15_TEMPLATES)
+    mode = rng.choice(['queue', 'noqueue', 'noqueue', 'queue-skip'])
+    cfg = Config(dests, tags, use_queue=mode != 'noqueue', skip_queue=mode == 'queue-skip',
+                 no_octopus=rng.random() < 0.3, create_prs=rng.random() < 0.6, create_branches=True,
+                 peers=0, leaders=0, author_approval=False, options=['bypass_jira_check'])
+    cands = [d for d in dests if len(targets_of(dests, d)) >= 2]
+    dst1 = rng.choice(cands)
+    targets = targets_of(dests, dst1)
+    t = rng.randrange(len(targets) - 1)            # the integration branch worked on: target 1 + t
+    prefix = rng.choice(['feature', 'bugfix', 'improvement'])
+    src1 = '%s/TEST-0001' % prefix
+    conflict = kind.startswith('conflict')
+    evs = [{'op': 'open', 'pr': 1, 'dst': dst1, 'src': src1}]
+    if conflict:
+        evs.append({'op': 'src_commit', 'pr': 1, 'shared': 'shared_a'})
+    for _ in range(rng.choice([0, 0, 1])):
+        evs.append({'op': 'src_commit', 'pr': 1, 'shared': None})
+    # pull request 2 moves destinations (and brings the conflicting file); pull request 3 is a bystander with a
+    # similar name that keeps its integration branches, and can move a destination later
+    if conflict:
+        dst2 = targets[1 + t]
+    elif kind in ('merge-dst', 'create-then-dst'):
+        dst2 = rng.choice(targets[:2 + t])          # its merge reaches target 1 + t
+    else:
+        dst2 = rng.choice(targets)
+    evs.append({'op': 'open', 'pr': 2, 'dst': dst2, 'src': src1 + rng.choice(['0', '-bis', '1x'])})
+    if conflict:
+        evs.append({'op': 'src_commit', 'pr': 2, 'shared': 'shared_a'})
+    nprs = 3 if rng.random() < 0.6 else 2
+    if nprs == 3:
+        evs.append({'op': 'open', 'pr': 3, 'dst': rng.choice(cands), 'src': '%s/TEST-0003' % prefix})
+        evs.append({'op': 'eval_pr', 'pr': 3})
+    unmerged = list(range(2, nprs + 1))
+
+    def move_destination(k):
+        unmerged.remove(k)
+        evs.append({'op': 'progress', 'pr': k})
+        if mode != 'noqueue':
+            evs.append({'op': 'progress', 'pr': k})      # queued, then merged
+
+    def create(what=None):
+        evs.append({'op': 'w_create', 'pr': 1, 't': t, 'what': what or rng.choice(['src', 'src', 'src', 'prev'])})
+
+    def maybe_eval(p=0.5):
+        if rng.random() < p:
+            evs.append({'op': 'eval_pr', 'pr': 1})
+
+    if kind == 'conflict-create':
+        evs.append({'op': 'eval_pr', 'pr': 2})
+        move_destination(2)
+        evs.append({'op': 'eval_pr', 'pr': 1})           # Conflict: the integration branch is not created
+        create()
+    elif kind == 'fresh-create':
+        if rng.random() < 0.4:
+            evs.append({'op': 'eval_pr', 'pr': 2})
+            move_destination(2)
+        create('src')
+        # the first evaluation greets: a command commented before it is never run, so the robot must have seen the
+        # pull request once (it finds the hand-made branch and builds the rest of the cascade on it)
+        evs.append({'op': 'eval_pr', 'pr': 1})
+        if rng.random() < 0.5:
+            evs.append({'op': 'w_commit', 'pr': 1, 't': t})
+    elif kind == 'recreate':
+        evs.append({'op': 'eval_pr', 'pr': 1})
+        r = rng.random()
+        if r < 0.3:
+            evs.append({'op': 'w_commit', 'pr': 1, 't': t})                      # dropped by the forced push
+        elif r < 0.6:
+            evs.append({'op': rng.choice(['src_commit', 'src_amend']), 'pr': 1, 'shared': None})
+        create()
+    elif kind == 'merge-dst':
+        order = [1, 2]
+        rng.shuffle(order)
+        for k in order:
+            evs.append({'op': 'eval_pr', 'pr': k})
+        move_destination(2)
+        evs.append({'op': 'w_merge', 'pr': 1, 't': t, 'what': 'dst'})
+    else:                                                                           # create-then-dst
+        first = rng.random() < 0.5
+        if first:
+            evs.append({'op': 'eval_pr', 'pr': 1})
+        create('src')
+        maybe_eval(0.5 if first else 1.0)                # (the robot has greeted before the command)
+        evs.append({'op': 'eval_pr', 'pr': 2})
+        move_destination(2)
+        evs.append({'op': 'w_merge', 'pr': 1, 't': t, 'what': 'dst'})
+    maybe_eval(0.5)                                       # the robot builds the rest of the cascade on top - or not
+    for _ in range(rng.choice([0, 0, 1, 1, 2, 3])):
+        r = rng.random()
+        if r < 0.15:
+            evs.append({'op': 'w_commit', 'pr': 1, 't': t})                        # on top of the hand-made merge
+        elif r < 0.25:
+            evs.append({'op': 'w_commit', 'pr': 1, 'k': rng.randint(0, 2)})
+        elif r < 0.37:
+            evs.append({'op': 'w_merge', 'pr': 1, 'k': rng.randint(0, 2), 'what': rng.choice(['dst', 'src'])})
+        elif r < 0.52:
+            evs.append({'op': rng.choice(['src_commit', 'src_amend', 'src_amend', 'src_reset']), 'pr': 1, 'n': 1,
+                        'shared': None})
+        elif r < 0.62 and unmerged:
+            k = rng.choice(unmerged)
+            if k == 2 and {'op': 'eval_pr', 'pr': 2} not in evs:
+                evs.append({'op': 'eval_pr', 'pr': 2})
+            move_destination(k)
+        elif r < 0.74:
+            evs.append({'op': 'w_create', 'pr': 1, 't': rng.choice([t, t, rng.randint(0, 2)]),
+                        'what': rng.choice(['src', 'prev'])})
+        else:
+            evs.append({'op': 'eval_pr', 'pr': 1})
+    evs.append({'op': 'reset', 'pr': 1, 'force': rng.random() < 0.25})
+    if rng.random() < 0.35:
+        r = rng.random()
+        if r < 0.35:
+            create('src')                                 # after a completed reset: on the rebuilt branch
+            maybe_eval(0.5)
+        elif r < 0.5:
+            evs.append({'op': rng.choice(['src_amend', 'w_commit']), 'pr': 1, 't': t})
+        evs.append({'op': 'reset', 'pr': 1, 'force': rng.random() < 0.6})
+    return cfg, mode + ':' + kind, evs
+
+
 # ----------------------------------------------------------------------------- executor
 
 def make_run(cfg, base_dir=None):
@@ -226,7 +395,8 @@ def make_run(cfg, base_dir=None):
         def __init__(self, cfg, base_dir=None):
             super().__init__(cfg, base_dir)
             self.ever = {}        # pr index -> set of source tips ever seen
-            self.manual = {}      # pr index -> [{'sha', 'kind', 'branch'}]
+            self.manual = {}      # pr index -> [{'sha', 'kind', 'branch', 'how', 'onto'}]
+            self.last_status = {}  # pr index -> status of the last evaluation of the pull request
             _wrap_real()
 
         # -- ghost bookkeeping ------------------------------------------------
@@ -256,8 +426,12 @@ def make_run(cfg, base_dir=None):
         def execute(self, ev):
             w = self.w
             op = ev['op']
-            if op not in ('src_reset', 'src_amend', 'src_merge', 'src_delete', 'w_commit', 'w_merge', 'reset'):
-                return super().execute(ev)
+            if op not in ('src_reset', 'src_amend', 'src_merge', 'src_delete', 'w_commit', 'w_merge', 'w_create',
+                          'reset'):
+                r = super().execute(ev)
+                if r[0] == 'job' and r[1] and r[1].get('kind') == 'pr' and ev.get('pr') in self.prs:
+                    self.last_status[ev['pr']] = r[1].get('status')
+                return r
             refs = self.refs = w.refs()
             pr = self.prs.get(ev.get('pr'))
             if pr is None:
@@ -295,6 +469,12 @@ def make_run(cfg, base_dir=None):
                 if not ws:
                     return 'skip', None
                 name = ws[ev.get('k', 0) % len(ws)]
+                if ev.get('t') is not None:
+                    # the integration branch of the t-th target after the first one (cascade order)
+                    name = self.wname_of(pr, ev['t'])[0]
+                    if name not in refs:
+                        return 'skip', None
+                onto = refs[name]
                 if op == 'w_commit':
                     w.user_commit(name, author=CONTRIB)
                     kind = 'commit'
@@ -308,11 +488,90 @@ def make_run(cfg, base_dir=None):
                         return 'skip', None      # already up to date
                     kind = 'merge'
                 sha = w.refs()[name]
-                self.manual.setdefault(ev['pr'], []).append({'sha': sha, 'kind': kind, 'branch': name})
-                return 'ext', {'manual': (name, sha, kind)}
+                assert self._parents(sha)[0] == onto, (sha, onto)     # made on top of the integration branch
+                how = 'on-top' if kind == 'commit' else 'merged-into'
+                self.manual.setdefault(ev['pr'], []).append({'sha': sha, 'kind': kind, 'branch': name, 'how': how,
+                                                             'onto': onto})
+                return 'ext', {'manual': (name, sha, kind), 'how': how}
+            if op == 'w_create':
+                # the developer's part of the Conflict workflow ("I have not created the integration branch"):
+                #   git fetch; git checkout -B w/X/<src> origin/<destination X>; git merge origin/<source>;
+                #   <conflict resolution>; git commit; git push -u origin w/X/<src>
+                # also done when the robot reported nothing of the kind, and on a branch that already exists
+                # (`checkout -B` starts it again from the destination: the push is then a forced one)
+                name, dname = self.wname_of(pr, ev.get('t', 0))
+                if name is None or dname not in refs or pr['src'] not in refs:
+                    return 'skip', None
+                other = pr['src']
+                if ev.get('what') == 'prev':
+                    # what the message names: the previous integration branch of the cascade (when it is on the remote)
+                    pname = self.wname_of(pr, ev.get('t', 0) - 1)[0] if ev.get('t', 0) > 0 else None
+                    if pname in refs:
+                        other = pname
+                if w.is_ancestor(refs[other], refs[dname]) or w.is_ancestor(refs[dname], refs[other]):
+                    return 'skip', None          # `git merge` would make no commit (up to date / fast-forward)
+                sha = self.hand_create(name, dname, other, force=name in refs)
+                if sha is None:
+                    return 'skip', None
+                ps = self._parents(sha)
+                assert ps == [refs[dname], refs[other]], (ps, refs[dname], refs[other])
+                how = 'recreated' if name in refs else \
+                    ('created-after-conflict' if self.last_status.get(ev['pr']) == 'Conflict' else 'created')
+                self.manual.setdefault(ev['pr'], []).append({'sha': sha, 'kind': 'merge', 'branch': name, 'how': how,
+                                                             'onto': refs[dname]})
+                return 'ext', {'manual': (name, sha, 'merge'), 'how': how + (':prev' if other != pr['src'] else ':src')}
             if op == 'reset':
                 return 'job', self.do_reset(ev, pr)
             raise ValueError(op)
+
+        def wname_of(self, pr, t):
+            """(name of the integration branch, name of its destination) for the t-th target after the first"""
+            ts = targets_of(self.cfg.dests, pr['dst'])[1:]
+            if not ts:
+                return None, None
+            d = ts[t % len(ts)]
+            return 'w/%s/%s' % (d.split('/')[1], pr['src']), d
+
+        def hand_create(self, name, dname, other, force):
+            """`git checkout -B <name> origin/<dname>; git merge origin/<other>` by the contributor, conflicts resolved by
+            hand, pushed (forced when the branch exists). Returns the merge commit or None when git made none."""
+            import subprocess
+            w = self.w
+            w._fetch()
+            git(w.work, 'checkout', '-q', '-B', name, 'origin/' + dname)
+            start = git(w.work, 'rev-parse', 'HEAD').strip()
+            ident = ['-c', 'user.name=%s' % CONTRIB, '-c', 'user.email=c@x']
+
+            def leave():
+                git(w.work, 'checkout', '-q', '--detach')
+                git(w.work, 'branch', '-q', '-D', name, check=False)
+            p = subprocess.run(['git'] + ident + ['merge', '--no-edit', '-q', 'origin/' + other],
+                               cwd=w.work, env=w._env(), stdout=subprocess.PIPE, stderr=subprocess.PIPE)
+            if p.returncode != 0:
+                files = git(w.work, 'diff', '--name-only', '--diff-filter=U').split()
+                ok = bool(files)
+                for fn in files:
+                    with open(os.path.join(w.work, fn), 'w') as fh:
+                        fh.write('resolved by hand %d\n' % w.counter)
+                    w.counter += 1
+                if ok:
+                    git(w.work, 'add', '-A')
+                    p = subprocess.run(['git'] + ident + ['commit', '-q', '--no-edit'], cwd=w.work, env=w._env(),
+                                       stdout=subprocess.PIPE, stderr=subprocess.PIPE)
+                    ok = p.returncode == 0
+                if not ok:
+                    git(w.work, 'merge', '--abort', check=False)
+                    leave()
+                    return None
+                self.resolved = getattr(self, 'resolved', 0) + 1
+            sha = git(w.work, 'rev-parse', 'HEAD').strip()
+            ps = git(w.work, 'rev-parse', 'HEAD^@', check=False).split()
+            if sha == start or len(ps) != 2 or ps[0] != start:
+                leave()
+                return None
+            git(w.work, 'push', '-q', *(['-f'] if force else []), 'origin', '%s:refs/heads/%s' % (name, name))
+            leave()
+            return sha
 
         def hand_merge(self, name, other):
             """a merge commit made by the contributor on the integration branch (conflicts resolved by hand)"""
@@ -359,8 +618,9 @@ def make_run(cfg, base_dir=None):
             info = {'kind': 'reset', 'pr': pr, 'force': bool(ev.get('force')), 'status': status,
                     'before': before, 'after': after, 'host_before': host_before, 'host_after': host_after,
                     'shas': shas, 'commits': commits, 'calls': calls}
+            self.last_status[ev['pr']] = status
             if status == 'ResetComplete':
-                info['rebuild_status'] = w.eval_pr(pr['id'])
+                info['rebuild_status'] = self.last_status[ev['pr']] = w.eval_pr(pr['id'])
                 info['rebuild_refs'], info['rebuild_anc'] = self.observe()
                 info['rebuild_host'] = w.prs()
             return info
@@ -581,6 +841,7 @@ def play15(cfg, events, model, base_dir=None):
 
     def count(k, n=1):
         stats[k] = stats.get(k, 0) + n
+    hand_since_eval = False      # a hand-made commit on an integration branch that no evaluation has seen yet
     try:
         run.note_tips()
         for n, ev in enumerate(events):
@@ -590,6 +851,13 @@ def play15(cfg, events, model, base_dir=None):
                 count('skipped:' + ev['op'])
                 continue
             run.note_tips()
+            if kind == 'ext' and info and info.get('how'):
+                count('hand:' + info['how'])
+                hand_since_eval = True
+            if ev['op'] in ('eval_pr', 'progress') and ev.get('pr') == 1:
+                hand_since_eval = False
+                if info and info.get('status') == 'Conflict':
+                    count('conflict-reported-on-pr1')
             if kind == 'job' and info and info.get('status'):
                 out['statuses'].append(info['status'])
                 count('status:' + info['status'])
@@ -605,6 +873,11 @@ def play15(cfg, events, model, base_dir=None):
             count('reset:held=%d' % min(len(held), 3))
             for m in held:
                 count('held:' + m['kind'])
+                count('held-how:' + m.get('how', '?'))
+            if held:
+                count('reset-with-held:%s:%s' % ('force' if info['force'] else 'plain',
+                                                 'not-evaluated-since' if hand_since_eval else 'evaluated-since'))
+            hand_since_eval = False
             if status == 'LossyResetWarning' and not held:
                 count('refusal-without-manual-work')
             if 'rebuild_status' in info:
@@ -647,8 +920,14 @@ def play15(cfg, events, model, base_dir=None):
 def _work(args):
     seed, i, use_model, base = args
     from . import common as c
-    rng = c.rng_for(seed, PID, i)
-    cfg, mode, evs = GEN(rng)
+    if isinstance(i, tuple) and i[0] == 'corpus':
+        return _corpus_one(i[1], use_model, base)
+    if isinstance(i, tuple):                       # ('merge', j): the Conflict-workflow family
+        rng = c.rng_for(seed, PID, i[0], i[1])
+        cfg, mode, evs = GEN_MERGE(rng, i[1])
+    else:
+        rng = c.rng_for(seed, PID, i)
+        cfg, mode, evs = GEN(rng)
     model = c.Model() if use_model else None
     try:
         out = play15(cfg, evs, model, base)
@@ -659,23 +938,27 @@ def _work(args):
     return out
 
 
-def _corpus(use_model, base):
-    from .system import Config
-    outs = []
+def _corpus_files():
     d = os.path.join(common.CORPUS_DIR, PID)
     if not os.path.isdir(d):
-        return outs
-    for fn in sorted(os.listdir(d)):
-        if not fn.endswith('.json'):
-            continue
-        with open(os.path.join(d, fn)) as fh:
-            h = json.load(fh)
-        cfgd = dict(h['cfg'])
-        cfg = Config(cfgd.pop('dests'), **cfgd)
+        return []
+    return [fn for fn in sorted(os.listdir(d)) if fn.endswith('.json')]
+
+
+def _corpus_one(fn, use_model, base):
+    from .system import Config
+    with open(os.path.join(common.CORPUS_DIR, PID, fn)) as fh:
+        h = json.load(fh)
+    cfgd = dict(h['cfg'])
+    cfg = Config(cfgd.pop('dests'), **cfgd)
+    try:
         out = play15(cfg, h['events'], common.Model() if use_model else None, base)
-        out.update({'i': 'corpus:' + fn, 'mode': 'corpus', 'cfg': cfg.as_dict(), 'events': h['events']})
-        outs.append(out)
-    return outs
+    except Exception:
+        import traceback
+        return {'i': 'corpus:' + fn, 'cfg': cfg.as_dict(), 'events': h['events'],
+                'error': traceback.format_exc()[-3000:]}
+    out.update({'i': 'corpus:' + fn, 'mode': 'corpus', 'cfg': cfg.as_dict(), 'events': h['events']})
+    return out
 
 
 RULE = ('seeded histories on the real system: 1-3 pull requests with similar source names on 6 cascade templates '
@@ -683,7 +966,12 @@ RULE = ('seeded histories on the real system: 1-3 pull requests with similar sou
         'pull requests on/off; integration branches created, then 2-9 events in random order among source '
         'commit/amend/rebase/reset-to-older-commit, destination moved by merging another pull request, 0-3 commits '
         'and merge commits made by hand on the integration branches of this and of the other pull requests, '
-        'evaluations; then reset or force_reset (sometimes a second one), then the rebuilding evaluation. Every '
+        'evaluations; then reset or force_reset (sometimes a second one), then the rebuilding evaluation. '
+        'Conflict-workflow family (8 scripted slots, every slot played): w/X/<src> made by hand from the destination '
+        'tip with a merge of the source (after a reported Conflict on that target / unprompted / on an existing '
+        'branch = forced push), the moved destination merged by hand into a robot-built or hand-made integration '
+        'branch, commits on top, 0-3 further random events, reset / force_reset with and without an evaluation in '
+        'between. Every '
         'command: status, all refs, all pull requests, the lists git returned to _reset, compared with the model on '
         'the exported commit graph; oracle = the property text with the ghost sets `manual` and `ever`; '
         'non-trivial = a command that ran with at least one integration branch')
@@ -694,7 +982,10 @@ def absorb(res, o):
     res.model_compared += o['compared']
     for k, v in o['stats'].items():
         res.count(k, v)
-    res.count('mode:%s' % o.get('mode'))
+    mode = str(o.get('mode'))
+    res.count('mode:%s' % mode.split(':')[0])
+    if ':' in mode:
+        res.count('family:%s' % mode.split(':', 1)[1])
     if any(r['status'] in ('ResetComplete', 'LossyResetWarning') for r in o['resets']):
         res.distinct.add(json.dumps([o['cfg'], o['events']], sort_keys=True, default=str))
     if o['disagreement']:
@@ -715,11 +1006,13 @@ def correspondence(ctx):
     res = Result()
     res.rule = RULE
     n = (120 if ctx.tier == 'quick' else 2500) * ctx.scale
+    n_merge = (N_MERGE_QUICK if ctx.tier == 'quick' else 1200) * ctx.scale
     base = common.scratch()
     use_model = ctx.model is not None
-    outs = _corpus(use_model, base)
+    # corpus first, then the Conflict-workflow family, then the uniform histories - all through the one pool
+    items = [('corpus', fn) for fn in _corpus_files()] + [('merge', j) for j in range(n_merge)] + list(range(n))
     with Pool(common.NCPU) as pool:
-        outs += pool.map(_work, [(ctx.seed, i, use_model, base) for i in range(n)], chunksize=1)
+        outs = pool.map(_work, [(ctx.seed, i, use_model, base) for i in items], chunksize=1)
     errors = [o for o in outs if 'error' in o]
     if errors:
         raise RuntimeError('history harness failed on %d histories; first: %s' % (len(errors), errors[0]['error']))
